@@ -22,10 +22,36 @@ pub fn run_a(s: &mut Src, ctx: &mut Ctx) -> Verdict {
     let mut st = crate::bc::gen_store(s, &kb);
     let goal = gen_goal(s, &kb);
     apply_str_style(s, &mut kb, &mut st);
+    // drawn last (saved cases keep decoding): one case in three has rules one of whose actions fails when it runs (a
+    // method call on an object that no fact holds), before, between or after their assignments; one case in four is
+    // asked by a caller who has an undo frame of their own open, with a change of their own in it
+    if s.chance(1, 3) {
+        for r in kb.rules.iter_mut() {
+            if s.bool() {
+                r.fails_at = Some(s.below(r.heads.len() + 1));
+            }
+        }
+    }
+    let caller_frame = s.chance(1, 4);
     if probe_only() {
         return Verdict::Pass;
     }
-    ctx.describe(|| describe(&kb, &st, &goal, &cfg));
+    ctx.describe(|| format!("{}{}", describe(&kb, &st, &goal, &cfg), if caller_frame { "\n  the caller has an undo frame open around the query, holding Caller.note = 7" } else { "" }));
+    if kb.rules.iter().any(|r| r.fails_at.is_some()) {
+        ctx.label("rule-with-action-that-fails-at-run-time");
+    }
+    if caller_frame {
+        ctx.label("caller-has-undo-frame-open");
+        match run_query_in_caller_frame(&kb, &st, &goal, &cfg) {
+            Ok(None) => {}
+            Ok(Some(v)) => return v,
+            Err(e) => {
+                let l = if e.starts_with("panic") { "engine-panic" } else { "engine-error" };
+                ctx.label(l);
+                return Verdict::Discard(l);
+            }
+        }
+    }
     let out = match run_query(&kb, &st, &goal, &cfg) {
         Ok(o) => o,
         Err(e) => {
@@ -72,6 +98,44 @@ pub fn run_a(s: &mut Src, ctx: &mut Ctx) -> Verdict {
         }
     }
     Verdict::Pass
+}
+
+/// The caller opens an undo frame, changes a fact of their own inside it, asks, and -- when the answer is "not
+/// provable" -- finds the facts exactly as they were at the call (their own change included); rolling their frame back
+/// afterwards then takes exactly their own change away again (the second half of the statement: the frame is still
+/// theirs, whatever frames the search began, committed or rolled back in between).
+fn run_query_in_caller_frame(kb: &Kb, st: &Store, goal: &GoalQ, cfg: &Cfg) -> Result<Option<Verdict>, String> {
+    let mut engine = build_engine(kb, cfg);
+    let mut facts = to_facts(st);
+    let before_frame = snap_of(&facts);
+    facts.begin_undo_frame();
+    facts.set("Caller.note", Value::Integer(7));
+    let at_call = snap_of(&facts);
+    let text = goal.text();
+    let r = match crate::core::catch(|| engine.query(&text, &mut facts)) {
+        Err(p) => return Err(format!("panic:{}", p)),
+        Ok(Err(e)) => return Err(format!("error:{}", e)),
+        Ok(Ok(r)) => r,
+    };
+    if r.provable {
+        return Ok(None);
+    }
+    let after = snap_of(&facts);
+    if after != at_call {
+        return Ok(Some(Verdict::fail(
+            "failed-proof-changed-facts:caller-frame-open",
+            format!("query `{}` reported not provable, asked inside the caller's own undo frame: facts at the call {:?}, after it {:?}", text, at_call, after),
+        )));
+    }
+    facts.rollback_undo_frame();
+    let rolled = snap_of(&facts);
+    if rolled != before_frame {
+        return Ok(Some(Verdict::fail(
+            "caller-frame-lost-during-failed-proof",
+            format!("query `{}` reported not provable; the caller then rolled back the frame they had opened before the call: facts {:?}, at the beginning of that frame {:?}", text, rolled, before_frame),
+        )));
+    }
+    Ok(None)
 }
 
 // ------------------------------------------------------------------ part B
